@@ -14,7 +14,7 @@ ID = "C14"
 LEVEL = "exploration"
 RULE = ("Histories of up to 4 prior operations drawn from {construct (optionally sharing page / title / subline / footnote "
         "/ source / page header / page footer / body / column-header OBJECTS with an earlier document), encode, encode expecting ValueError, "
-        "encode twice, change a nested setting (rtf_page.nrow) of a live document in place, re-write a figure file at the same path} over a pool of 14 document archetypes (plain, coloured, multi-section with/without "
+        "encode twice, change a nested setting (rtf_page.nrow) of a live document in place, re-write a figure file at the same path} over a pool of 31 document archetypes (plain, coloured, multi-section with/without "
         "footnote, figure, grouped, grouped non-contiguous, paginated page_by, subline_by, 2- and 3-column tables "
         "that can share components), followed by encoding every live document. Exhaustive: all histories of "
         "length <=2 over archetype x sharing menu; generated: Hypothesis op-sequence strategy (indices are "
@@ -120,6 +120,14 @@ ARCH = [
                   {"df": _t(2, 3, "b"), "body": {"col_rel_width": [1, 2]}, "headers": "default"},
                   {"df": _t(2, 2, "c"), "body": {"col_rel_width": [1, 2]}, "headers": "default"}],
      "title": {"text": ["@T0"]}, "footnote": {"text": ["@F0"]}, "source": {"text": ["@S0"]}},
+    # 29: three subline_by headings with the SAME number of characters, of which only the first wraps (2 lines at 9 pt in the
+    #     6.25 in text area), 5 rows per group, nrow 7: the heading reservation decides between 4 and 5 rows per page.  Anything
+    #     that lets an unordered collection (polars unique(), a set) pick "the" heading changes the page breaks between calls
+    {"kind": "table", "page": {"nrow": 7}, "sections": [{"df": _g(["@B0:v0 " + "W" * 56] * 5 + ["@B0:v1 " + "i" * 56] * 5 + ["@B0:v2 " + "l" * 56] * 5),
+                                                        "body": {"subline_by": ["@N0"]}, "headers": [{"text": ["@H0.0", "@H0.1"]}]}]},
+    # 30: the same with page_by headings in a 3 in table (ties in length among wrapping / non-wrapping headings)
+    {"kind": "table", "page": {"nrow": 7, "col_width": 3.0}, "sections": [{"df": _g(["@G0:v0 " + "W" * 28] * 4 + ["@G0:v1 " + "i" * 28] * 4 + ["@G0:v2 " + "l" * 28] * 4),
+                                                                         "body": {"page_by": ["@N0"]}, "headers": [{"text": ["@H0.0", "@H0.1"]}]}]},
 ]
 _PNG2 = (b"\x89PNG\r\n\x1a\n" + (13).to_bytes(4, "big") + b"IHDR" + (12).to_bytes(4, "big") + (5).to_bytes(4, "big")
          + b"\x08\x02\x00\x00\x00" + bytes(8) + b"SECOND VERSION OF THE PLOT").hex()
@@ -391,6 +399,9 @@ def enumerate_cases(tier):
     for a in archs:
         yield {"history": [_construct(a)]}
         yield {"history": [_construct(a), {"op": "encode_twice", "doc": 0}]}
+    for a in (29, 30):   # many renderings of documents whose layout hinges on a tie between headings
+        for k in (3, 5):
+            yield {"history": [_construct(a)] + [{"op": "encode_twice", "doc": 0}] * k}
     for a in archs:      # a figure file re-written at the same path between two encodes
         if ARCH[a]["kind"] == "figure":
             yield {"history": [_construct(a), {"op": "encode", "doc": 0}, {"op": "rewrite_figure", "doc": 0}]}
